@@ -224,6 +224,51 @@ theorem never_diverges (size : Nat) (ops : List Op) :
     refine ⟨?_, ih _⟩
     cases op <;> simp only [Q.step] <;> (try split) <;> simp
 
+/-! ### the FIFO law read off the refinement -/
+
+theorem runS_append (q : Q) (a b : List Op) :
+    runS q (a ++ b) = ((runS (runS q a).1 b).1, (runS q a).2 ++ (runS (runS q a).1 b).2) := by
+  induction a generalizing q with
+  | nil => simp [runS]
+  | cons op a ih => simp only [List.cons_append, runS, ih]
+
+theorem q_writes (vs : List Nat) : ∀ (q : Q), q.items.length + vs.length ≤ q.cap →
+    runS q (vs.map Op.write) = ({ q with items := q.items ++ vs }, vs.map fun _ => Out.ok) := by
+  induction vs with
+  | nil => intro q _; simp [runS]
+  | cons v vs ih =>
+    intro q h
+    simp only [List.length_cons] at h
+    have hne : ¬ q.items.length = q.cap := by omega
+    simp only [List.map_cons, runS, Q.step, if_neg hne]
+    rw [ih { q with items := q.items ++ [v] } (by simp; omega)]
+    simp
+
+theorem q_reads (xs : List Nat) : ∀ (q : Q), q.items = xs →
+    runS q (List.replicate xs.length Op.read) = ({ q with items := [] }, xs.map Out.val) := by
+  induction xs with
+  | nil => intro q h; cases q; simp only at h; subst h; simp [runS]
+  | cons x xs ih =>
+    intro q h
+    simp only [List.length_cons, List.replicate_succ, runS, Q.step, h]
+    rw [ih { q with items := xs } rfl]
+    simp
+
+/-- C14.fifo, stated outright: on a fresh buffer of capacity `size`, any `n ≤ size` writes all succeed
+and the next `n` reads return exactly the written values in the order written. -/
+theorem fifo (size : Nat) (vs : List Nat) (h : vs.length ≤ size) :
+    (runI (RB.new size) (vs.map Op.write ++ List.replicate vs.length Op.read)).2 =
+      (vs.map fun _ => Out.ok) ++ vs.map Out.val := by
+  rw [refines_queue, runS_append, q_writes vs _ (by simpa using h)]
+  simp only [List.nil_append]
+  rw [q_reads vs _ rfl]
+
+/-- C14.overflow_rejected: the write after `size` successful writes is refused with ErrExhausted -/
+theorem overflow_rejected (size : Nat) (vs : List Nat) (v : Nat) (h : vs.length = size) :
+    (runI (RB.new size) (vs.map Op.write ++ [Op.write v])).2 = (vs.map fun _ => Out.ok) ++ [Out.errExhausted] := by
+  rw [refines_queue, runS_append, q_writes vs _ (by simp [h])]
+  simp [runS, Q.step, h]
+
 /-- non-vacuity: a reachable wrapped state satisfies the invariant's premises -/
 example : (runI (RB.new 2) [.write 1, .write 2, .read, .write 3, .read]).1 = { buf := [0, 0, 3], r := 2, w := 0 } := by
   decide
